@@ -5,6 +5,9 @@ mod alu;
 mod ast;
 mod checks;
 mod checks2;
+mod checks3;
+mod cli;
+mod progs;
 mod exec;
 mod forms;
 mod gen;
